@@ -1,6 +1,7 @@
 (** C15 -- fallible operations fail by value, not by panic or hang.
     Theorem-only file (written by tools/c15_mkprops.py): each theorem is closed by [exact] of a lemma of
-    Proofs/C15.v, Proofs/C15Owners.v, Proofs/C15Wide.v, Proofs/C15Text.v or Proofs/C15Strftime.v and followed by
+    Proofs/C15.v, Proofs/C15Owners.v, Proofs/C15Wide.v, Proofs/C15Text.v, Proofs/C15Strftime.v, Proofs/C15Deep.v (with C15Parse.v,
+    C15SfItems.v, C15Utf8.v) and followed by
     [Print Assumptions].
 
     C15 is cross-cutting: its model is the union of all properties' models (Model/C15.v) and its
@@ -20,8 +21,9 @@
     Which inventory entries (gen/C15_inventory.json, printed in the evidence) have such a theorem and
     which are covered by correspondence + judge only is listed at the end of this file. *)
 From Coq Require Import ZArith List Bool String.
-From V Require Import Base.Int Base.IO Spec.Gregorian Model.Strftime Proofs.C15 Proofs.C15Owners Proofs.C15Strftime Proofs.C15Wide Proofs.C15Text.
-From V Require Model.Date Model.Time Model.DateTime Model.TimeDelta Model.DateExtra Model.Parsed Model.Parse Model.Rfc3339 Model.Show Model.Round Model.C02 Model.C15 Model.C19 Gen.Strftime.
+From V Require Import Base.Int Base.IO Spec.Gregorian Model.Strftime Proofs.C15 Proofs.C15Owners Proofs.C15Strftime Proofs.C15Wide Proofs.C15Text Proofs.C15Utf8 Proofs.C15SfItems Proofs.C15Deep.
+From V Require Model.Date Model.Time Model.DateTime Model.TimeDelta Model.DateExtra Model.Parsed Model.Parse Model.Rfc3339 Model.Show Model.Round Model.C02 Model.C15 Model.C19 Gen.Strftime
+               Base.Utf8 Model.Scan Model.FromStr Model.Rfc2822 Proofs.C13Total Proofs.C13Time Proofs.C14.
 Import ListNotations.
 Open Scope Z_scope.
 
@@ -335,6 +337,20 @@ Theorem C15_dtz_months_partial : forall (add : bool) a m,
   returns step /\ forall z, step = Val (Some z) -> Proofs.C04.dtz_ok z.
 Proof. exact dtz_months_partial. Qed.
 Print Assumptions C15_dtz_months_partial.
+(* MappedLocalTime::single / earliest / latest are pattern matches in the model (no trapping step); what they return *)
+Theorem C15_mlt_selectors : forall A (m : Model.DateTime.mlt A), 
+  (forall x, Model.DateTime.mlt_single m = Some x <-> m = Model.DateTime.MSingle x) /\
+  (Model.DateTime.mlt_earliest m = None <-> m = Model.DateTime.MNone) /\
+  (Model.DateTime.mlt_latest m = None <-> m = Model.DateTime.MNone) /\
+  (forall x, Model.DateTime.mlt_single m = Some x -> Model.DateTime.mlt_earliest m = Some x /\ Model.DateTime.mlt_latest m = Some x) /\
+  (forall x y, m = Model.DateTime.MAmbiguous x y -> Model.DateTime.mlt_earliest m = Some x /\ Model.DateTime.mlt_latest m = Some y).
+Proof. exact mlt_selectors. Qed.
+Print Assumptions C15_mlt_selectors.
+(* TimeZone::offset_from_local_date / offset_from_local_datetime of FixedOffset and Utc (op c15.offlocal): the constant answer Single(self), twice *)
+Theorem C15_offset_from_local_total : forall off, 
+  Model.C15.offset_from_local off = VTup [VTup [VInt off]; VTup [VInt off]].
+Proof. exact offset_from_local_total. Qed.
+Print Assumptions C15_offset_from_local_total.
 
 (** ** Month stepping, date-field replacement, week helpers (C08): every date, every u32 / i32 argument *)
 Theorem C15_date_months_total : forall d n, 
@@ -407,12 +423,31 @@ Theorem C15_to_naive_time_total : forall p,
   returns (Model.Parsed.to_naive_time p).
 Proof. exact to_naive_time_total. Qed.
 Print Assumptions C15_to_naive_time_total.
-(* every i32 offset; includes the minimum timestamp with second 60 (dd0e5ce); to_datetime / to_datetime_with_timezone go through it (correspondence + judge for their last step) *)
+(* every i32 offset; includes the minimum timestamp with second 60 (dd0e5ce) *)
 Theorem C15_to_naive_datetime_with_offset_total : forall p off, 
   Proofs.C14.typed p -> in_i32 off = true ->
   returns (Model.Parsed.to_naive_datetime_with_offset p off).
 Proof. exact to_naive_datetime_with_offset_total. Qed.
 Print Assumptions C15_to_naive_datetime_with_offset_total.
+(* Parsed::to_datetime on every typed field state, the last step (offset range check, from_local_datetime) included (C14_to_datetime_never_panics); a returned date-time is well formed *)
+Theorem C15_to_datetime_total : forall p, 
+  Proofs.C14.typed p ->
+  returns (Model.Parsed.to_datetime p) /\ forall z, Model.Parsed.to_datetime p = Val (Model.Parsed.Ok z) -> Proofs.C04.dtz_ok z.
+Proof. exact to_datetime_total. Qed.
+Print Assumptions C15_to_datetime_total.
+(* Parsed::to_datetime_with_timezone for every FixedOffset / Utc zone (C14_to_datetime_with_timezone_never_panics); the result carries the zone's offset *)
+Theorem C15_to_datetime_with_timezone_total : forall p tz, 
+  Proofs.C14.typed p -> Proofs.C04.off_ok tz ->
+  returns (Model.Parsed.to_datetime_with_timezone p tz) /\
+  forall z, Model.Parsed.to_datetime_with_timezone p tz = Val (Model.Parsed.Ok z) -> Proofs.C04.dtz_ok z /\ Model.DateTime.dz_off z = tz.
+Proof. exact to_datetime_with_timezone_total. Qed.
+Print Assumptions C15_to_datetime_with_timezone_total.
+(* the 21 getters (year .. offset) are plain projections in the model (no trapping step): on every typed state -- every state the setters (C14_setters_keep_typed) and the readers (C15_parse_items_total) produce -- a returned value is a value of the getter's Rust type *)
+Theorem C15_parsed_getters_valid : forall p f, 
+  Proofs.C14.typed p ->
+  match Model.Parsed.pget f p with Some v => Proofs.C14.ftype f v | None => True end.
+Proof. exact parsed_getters_valid. Qed.
+Print Assumptions C15_parsed_getters_valid.
 
 (** ** Weekday / Month conversions and FromStr (C19) *)
 (* all thirteen FromPrimitive / TryFrom conversions are plain functions in the model: a returned value is a Weekday / Month *)
@@ -451,18 +486,128 @@ Theorem C15_ndt_round_total_partial : forall a d,
 Proof. exact ndt_round_total_partial. Qed.
 Print Assumptions C15_ndt_round_total_partial.
 
-(** ** Parsers *)
+(** ** Parsers.  [str_ok s]: s is well-formed UTF-8 (Base/Utf8.v; the same strings as Model/Strftime.v's predicate: C15_utf8_predicates_agree) of a length a Rust string can have (at most u64::MAX bytes; the RFC 2822 reader and the format-string iterator do usize arithmetic on lengths).  The premise SF_ERROR_CONSUMES = true is the translator's reading of the repaired error() of src/format/strftime.rs (d664290), as in the StrftimeItems theorems below *)
 (* every well-formed UTF-8 string (C10) *)
 Theorem C15_parse_from_rfc3339_total : forall s, 
   Base.Utf8.utf8_valid s = true -> returns (Model.Rfc3339.parse_from_rfc3339 s).
 Proof. exact parse_from_rfc3339_total. Qed.
 Print Assumptions C15_parse_from_rfc3339_total.
-(* format::parse / parse_and_remainder with an explicit item list (C13).  PARTIAL: item lists without Fixed::RFC2822 (C11 owns that reader: C11_comment_total, C11_zone_scanner_total, C11_no_panic_on_grammar_partial; otherwise correspondence + judge) *)
+(* DateTime::parse_from_rfc2822: EVERY string (C11_parse_never_panics + C14_to_datetime_never_panics); a returned date-time is well formed *)
+Theorem C15_parse_from_rfc2822_total : forall s, 
+  str_ok s ->
+  returns (Model.Rfc2822.parse_from_rfc2822 s) /\ forall z, Model.Rfc2822.parse_from_rfc2822 s = Val (POk z) -> Proofs.C04.dtz_ok z.
+Proof. exact parse_from_rfc2822_total. Qed.
+Print Assumptions C15_parse_from_rfc2822_total.
+(* format::parse / parse_and_remainder over EVERY item list whose literals are strings, the Fixed::RFC2822 item included (C13_parse_never_panics), every input: never a trap; an accepted input leaves a typed field state (Proofs/C15Parse.v) and a well-formed remainder.  Supersedes C15_parse_items_total_partial *)
+Theorem C15_parse_items_total : forall items p s, 
+  Proofs.C14.typed p -> forallb Proofs.C13Total.item_wf items = true ->
+  Base.Utf8.utf8_valid s = true -> Base.Utf8.blen s <= u64_max ->
+  (returns (Model.Parse.parse p s items) /\ forall q, Model.Parse.parse p s items = Val (POk q) -> Proofs.C14.typed q) /\
+  (returns (Model.Parse.parse_and_remainder p s items) /\
+   forall q r, Model.Parse.parse_and_remainder p s items = Val (POk (q, r)) -> Proofs.C14.typed q /\ Base.Utf8.utf8_valid r = true).
+Proof. exact parse_items_full. Qed.
+Print Assumptions C15_parse_items_total.
+(* the older form (kept under its name; superseded by C15_parse_items_total): item lists without Fixed::RFC2822 *)
 Theorem C15_parse_items_total_partial : forall items p s, 
   forallb Proofs.C13Safe.item_ok items = true -> Base.Utf8.utf8_valid s = true ->
   returns (Model.Parse.parse p s items) /\ returns (Model.Parse.parse_and_remainder p s items).
 Proof. exact parse_items_total. Qed.
 Print Assumptions C15_parse_items_total_partial.
+(* the two executable statements of UTF-8 well-formedness in the models accept the same strings *)
+Theorem C15_utf8_predicates_agree : forall s, 
+  Model.Strftime.utf8_valid s = Base.Utf8.utf8_valid s.
+Proof. exact utf8_valid_eq. Qed.
+Print Assumptions C15_utf8_predicates_agree.
+(* every item the strict format-string iterator yields is well formed: a Literal carries a well-formed string ([st_ok]: strict mode, well-formed remainder of at most u64::MAX bytes, well-formed queued items; [st_ok_new]: StrftimeItems::new(fmt) is such a state) *)
+Theorem C15_strftime_items_wellformed : 
+  forall items st, st_ok st -> Proofs.C13Time.yields st items -> forallb Proofs.C13Total.item_wf items = true.
+Proof. exact yields_wf. Qed.
+Print Assumptions C15_strftime_items_wellformed.
+(* NaiveDate::parse_from_str(s, fmt): EVERY format string, EVERY input -- iterator, lazily driven reader (C13_parse_sf_loop_is_parse_items), to_naive_date; a returned date is valid *)
+Theorem C15_date_parse_from_str_total : forall s fmt, 
+  str_ok s -> str_ok fmt -> Gen.Strftime.SF_ERROR_CONSUMES = true ->
+  returns (Model.Parse.date_parse_from_str s fmt) /\ forall d, Model.Parse.date_parse_from_str s fmt = Val (POk d) -> date_valid d.
+Proof. exact date_parse_from_str_total. Qed.
+Print Assumptions C15_date_parse_from_str_total.
+(* NaiveTime::parse_from_str *)
+Theorem C15_time_parse_from_str_total : forall s fmt, 
+  str_ok s -> str_ok fmt -> Gen.Strftime.SF_ERROR_CONSUMES = true ->
+  returns (Model.Parse.time_parse_from_str s fmt) /\ forall t, Model.Parse.time_parse_from_str s fmt = Val (POk t) -> time_valid t.
+Proof. exact time_parse_from_str_total. Qed.
+Print Assumptions C15_time_parse_from_str_total.
+(* NaiveDateTime::parse_from_str *)
+Theorem C15_ndt_parse_from_str_total : forall s fmt, 
+  str_ok s -> str_ok fmt -> Gen.Strftime.SF_ERROR_CONSUMES = true ->
+  returns (Model.Parse.ndt_parse_from_str s fmt) /\ forall a, Model.Parse.ndt_parse_from_str s fmt = Val (POk a) -> Proofs.C04.ndt_ok a.
+Proof. exact ndt_parse_from_str_total. Qed.
+Print Assumptions C15_ndt_parse_from_str_total.
+(* DateTime::<FixedOffset>::parse_from_str *)
+Theorem C15_dt_parse_from_str_total : forall s fmt, 
+  str_ok s -> str_ok fmt -> Gen.Strftime.SF_ERROR_CONSUMES = true ->
+  returns (Model.Parse.dt_parse_from_str s fmt) /\ forall z, Model.Parse.dt_parse_from_str s fmt = Val (POk z) -> Proofs.C04.dtz_ok z.
+Proof. exact dt_parse_from_str_total. Qed.
+Print Assumptions C15_dt_parse_from_str_total.
+(* T::parse_and_remainder(s, fmt): the value is valid and the remainder handed back is a string again *)
+Theorem C15_date_parse_and_remainder_total : forall s fmt, 
+  str_ok s -> str_ok fmt -> Gen.Strftime.SF_ERROR_CONSUMES = true ->
+  returns (Model.Parse.date_parse_and_remainder s fmt) /\
+  forall d r, Model.Parse.date_parse_and_remainder s fmt = Val (POk (d, r)) -> date_valid d /\ Base.Utf8.utf8_valid r = true.
+Proof. exact date_parse_and_remainder_total. Qed.
+Print Assumptions C15_date_parse_and_remainder_total.
+Theorem C15_time_parse_and_remainder_total : forall s fmt, 
+  str_ok s -> str_ok fmt -> Gen.Strftime.SF_ERROR_CONSUMES = true ->
+  returns (Model.Parse.time_parse_and_remainder s fmt) /\
+  forall t r, Model.Parse.time_parse_and_remainder s fmt = Val (POk (t, r)) -> time_valid t /\ Base.Utf8.utf8_valid r = true.
+Proof. exact time_parse_and_remainder_total. Qed.
+Print Assumptions C15_time_parse_and_remainder_total.
+Theorem C15_ndt_parse_and_remainder_total : forall s fmt, 
+  str_ok s -> str_ok fmt -> Gen.Strftime.SF_ERROR_CONSUMES = true ->
+  returns (Model.Parse.ndt_parse_and_remainder s fmt) /\
+  forall a r, Model.Parse.ndt_parse_and_remainder s fmt = Val (POk (a, r)) -> Proofs.C04.ndt_ok a /\ Base.Utf8.utf8_valid r = true.
+Proof. exact ndt_parse_and_remainder_total. Qed.
+Print Assumptions C15_ndt_parse_and_remainder_total.
+Theorem C15_dt_parse_and_remainder_total : forall s fmt, 
+  str_ok s -> str_ok fmt -> Gen.Strftime.SF_ERROR_CONSUMES = true ->
+  returns (Model.Parse.dt_parse_and_remainder s fmt) /\
+  forall z r, Model.Parse.dt_parse_and_remainder s fmt = Val (POk (z, r)) -> Proofs.C04.dtz_ok z /\ Base.Utf8.utf8_valid r = true.
+Proof. exact dt_parse_and_remainder_total. Qed.
+Print Assumptions C15_dt_parse_and_remainder_total.
+(* the FromStr impls built on the item reader with the fixed item lists of Gen/TextForms.v (Model/FromStr.v): EVERY input *)
+Theorem C15_naive_date_from_str_total : forall s, 
+  str_ok s ->
+  returns (Model.FromStr.naive_date_from_str s) /\ forall d, Model.FromStr.naive_date_from_str s = Val (POk d) -> date_valid d.
+Proof. exact naive_date_from_str_total. Qed.
+Print Assumptions C15_naive_date_from_str_total.
+(* three reader calls (the second may fail and is then ignored) and to_naive_time *)
+Theorem C15_naive_time_from_str_total : forall s, 
+  str_ok s ->
+  returns (Model.FromStr.naive_time_from_str s) /\ forall t, Model.FromStr.naive_time_from_str s = Val (POk t) -> time_valid t.
+Proof. exact naive_time_from_str_total. Qed.
+Print Assumptions C15_naive_time_from_str_total.
+Theorem C15_naive_datetime_from_str_total : forall s, 
+  str_ok s ->
+  returns (Model.FromStr.naive_datetime_from_str s) /\ forall a, Model.FromStr.naive_datetime_from_str s = Val (POk a) -> Proofs.C04.ndt_ok a.
+Proof. exact naive_datetime_from_str_total. Qed.
+Print Assumptions C15_naive_datetime_from_str_total.
+(* the relaxed RFC 3339 reader (C13_rfc3339_relaxed_never_panics), trailing white space, to_datetime *)
+Theorem C15_datetime_fixed_from_str_total : forall s, 
+  str_ok s ->
+  returns (Model.FromStr.datetime_fixed_from_str s) /\ forall z, Model.FromStr.datetime_fixed_from_str s = Val (POk z) -> Proofs.C04.dtz_ok z.
+Proof. exact datetime_fixed_from_str_total. Qed.
+Print Assumptions C15_datetime_fixed_from_str_total.
+(* the same, then with_timezone(&Utc) *)
+Theorem C15_datetime_utc_from_str_total : forall s, 
+  str_ok s ->
+  returns (Model.FromStr.datetime_utc_from_str s) /\
+  forall z, Model.FromStr.datetime_utc_from_str s = Val (POk z) -> Proofs.C04.dtz_ok z /\ Model.DateTime.dz_off z = 0.
+Proof. exact datetime_utc_from_str_total. Qed.
+Print Assumptions C15_datetime_utc_from_str_total.
+(* the offset scanner (C13_timezone_offset_never_panics), then east_opt *)
+Theorem C15_fixed_offset_from_str_total : forall s, 
+  str_ok s ->
+  returns (Model.FromStr.fixed_offset_from_str s) /\ forall off, Model.FromStr.fixed_offset_from_str s = Val (POk off) -> Proofs.C04.off_ok off.
+Proof. exact fixed_offset_from_str_total. Qed.
+Print Assumptions C15_fixed_offset_from_str_total.
 
 (** ** The RFC 3339 renderers never trap: EVERY well-formed date-time -- any year (the one-day headroom seen through an offset included: the repaired defect of to_rfc3339_opts), any offset (seconds included), leap-second fraction on any second -- and every SecondsFormat (0 Secs .. 4 AutoSi).  The writer is total (Proofs/C15Text.v on the writer lemmas of C09 / C10 / C20); what the text IS is C10's theorem on its writer domain (C10_writer_in_grammar) *)
 Theorem C15_to_rfc3339_total : forall a, 
@@ -571,6 +716,16 @@ Example C15_wide_hypotheses_inhabited :
 Proof. exact wide_hypotheses_inhabited. Qed.
 Print Assumptions C15_wide_hypotheses_inhabited.
 
+(* ... and those of the text entry points (Proofs/C15Deep.v): [ex_fmt] = "%a, %d %b %Y %T %z \u00e9", [ex_text] = "Tue, 01 Jul 2003 10:52:37 +0200 \u00e9" *)
+Example C15_deep_hypotheses_inhabited :
+  str_ok ex_fmt /\ str_ok ex_text /\ Gen.Strftime.SF_ERROR_CONSUMES = true /\
+  (exists z, Model.Parse.dt_parse_from_str ex_text ex_fmt = Val (POk z)) /\
+  Model.Parse.date_parse_from_str ex_text (bytes_of_string "%Q"%string) = Val (PErr Model.Scan.BadFormat) /\
+  Model.Parse.date_parse_from_str ex_text ex_fmt = Val (POk (Proofs.C08Sweeps.mkdate 2003 182)) /\
+  Model.FromStr.naive_time_from_str (bytes_of_string "23:59:60.5"%string) = Val (POk (Model.Time.mk_time 86399 1500000000)).
+Proof. exact deep_hypotheses_inhabited. Qed.
+Print Assumptions C15_deep_hypotheses_inhabited.
+
 (** ** Inventory of the public fallible entry points (gen/C15_inventory.json) by kind of no-panic evidence
 
    THEOREM of this file:
@@ -581,6 +736,10 @@ Print Assumptions C15_wide_hypotheses_inhabited.
        NaiveDate::checked_add_days; NaiveDate::checked_sub_days;
      C15_date_months_total
        NaiveDate::checked_add_months; NaiveDate::checked_sub_months;
+     C15_date_parse_and_remainder_total
+       NaiveDate::parse_and_remainder;
+     C15_date_parse_from_str_total
+       NaiveDate::parse_from_str;
      C15_date_signed_total
        NaiveDate::checked_add_signed; NaiveDate::checked_sub_signed;
      C15_date_with_total
@@ -588,6 +747,14 @@ Print Assumptions C15_wide_hypotheses_inhabited.
        <NaiveDate as Datelike>::with_month0; <NaiveDate as Datelike>::with_day;
        <NaiveDate as Datelike>::with_day0; <NaiveDate as Datelike>::with_ordinal;
        <NaiveDate as Datelike>::with_ordinal0;
+     C15_datetime_fixed_from_str_total
+       <DateTime<FixedOffset> as str::FromStr>::from_str;
+     C15_datetime_utc_from_str_total
+       <DateTime<Utc> as str::FromStr>::from_str;
+     C15_dt_parse_and_remainder_total
+       DateTime<FixedOffset>::parse_and_remainder;
+     C15_dt_parse_from_str_total
+       DateTime<FixedOffset>::parse_from_str;
      C15_dtz_days_total
        DateTime<Tz>::checked_add_days; DateTime<Tz>::checked_sub_days;
      C15_dtz_months_total
@@ -607,6 +774,8 @@ Print Assumptions C15_wide_hypotheses_inhabited.
        <DateTime<Tz> as Timelike>::with_second; <DateTime<Tz> as Timelike>::with_nanosecond;
      C15_fixed_offset_ctor_total
        FixedOffset::east_opt; FixedOffset::west_opt;
+     C15_fixed_offset_from_str_total
+       <FixedOffset as FromStr>::from_str;
      C15_from_isoywd_opt_total
        NaiveDate::from_isoywd_opt;
      C15_from_local_datetime_total
@@ -625,14 +794,26 @@ Print Assumptions C15_wide_hypotheses_inhabited.
        NaiveDate::from_ymd_opt;
      C15_from_yo_opt_total
        NaiveDate::from_yo_opt;
+     C15_mlt_selectors
+       MappedLocalTime<T>::single; MappedLocalTime<T>::earliest; MappedLocalTime<T>::latest;
      C15_month_num_days_total
        Month::num_days;
+     C15_naive_date_from_str_total
+       <NaiveDate as str::FromStr>::from_str;
+     C15_naive_datetime_from_str_total
+       <NaiveDateTime as str::FromStr>::from_str;
+     C15_naive_time_from_str_total
+       <NaiveTime as str::FromStr>::from_str;
      C15_ndt_days_total
        NaiveDateTime::checked_add_days; NaiveDateTime::checked_sub_days;
      C15_ndt_months_total
        NaiveDateTime::checked_add_months; NaiveDateTime::checked_sub_months;
      C15_ndt_offset_total
        NaiveDateTime::checked_add_offset; NaiveDateTime::checked_sub_offset;
+     C15_ndt_parse_and_remainder_total
+       NaiveDateTime::parse_and_remainder;
+     C15_ndt_parse_from_str_total
+       NaiveDateTime::parse_from_str;
      C15_ndt_round_total
        <NaiveDateTime as DurationRound>::duration_round; <NaiveDateTime as DurationRound>::duration_trunc;
        <NaiveDateTime as DurationRound>::duration_round_up;
@@ -641,8 +822,20 @@ Print Assumptions C15_wide_hypotheses_inhabited.
      C15_ndt_with_time_total
        <NaiveDateTime as Timelike>::with_hour; <NaiveDateTime as Timelike>::with_minute;
        <NaiveDateTime as Timelike>::with_second; <NaiveDateTime as Timelike>::with_nanosecond;
+     C15_offset_from_local_total
+       <FixedOffset as TimeZone>::offset_from_local_date; <FixedOffset as TimeZone>::offset_from_local_datetime;
+       <Utc as TimeZone>::offset_from_local_date; <Utc as TimeZone>::offset_from_local_datetime;
+     C15_parse_from_rfc2822_total
+       DateTime<FixedOffset>::parse_from_rfc2822;
      C15_parse_from_rfc3339_total
        DateTime<FixedOffset>::parse_from_rfc3339;
+     C15_parse_items_total
+       parse::parse; parse::parse_and_remainder;
+     C15_parsed_getters_valid
+       Parsed::year; Parsed::year_div_100; Parsed::year_mod_100; Parsed::isoyear; Parsed::isoyear_div_100;
+       Parsed::isoyear_mod_100; Parsed::quarter; Parsed::month; Parsed::week_from_sun; Parsed::week_from_mon;
+       Parsed::isoweek; Parsed::weekday; Parsed::ordinal; Parsed::day; Parsed::hour_div_12; Parsed::hour_mod_12;
+       Parsed::minute; Parsed::second; Parsed::nanosecond; Parsed::timestamp; Parsed::offset;
      C15_parsed_setters_total
        Parsed::set_year; Parsed::set_year_div_100; Parsed::set_year_mod_100; Parsed::set_isoyear;
        Parsed::set_isoyear_div_100; Parsed::set_isoyear_mod_100; Parsed::set_quarter; Parsed::set_month;
@@ -683,8 +876,16 @@ Print Assumptions C15_wide_hypotheses_inhabited.
      C15_time_ctor_total
        NaiveTime::from_hms_opt; NaiveTime::from_hms_milli_opt; NaiveTime::from_hms_micro_opt;
        NaiveTime::from_hms_nano_opt;
+     C15_time_parse_and_remainder_total
+       NaiveTime::parse_and_remainder;
+     C15_time_parse_from_str_total
+       NaiveTime::parse_from_str;
      C15_timestamp_nanos_opt_total
        DateTime<Tz>::timestamp_nanos_opt;
+     C15_to_datetime_total
+       Parsed::to_datetime;
+     C15_to_datetime_with_timezone_total
+       Parsed::to_datetime_with_timezone;
      C15_to_naive_date_total
        Parsed::to_naive_date;
      C15_to_naive_datetime_with_offset_total
@@ -714,8 +915,6 @@ Print Assumptions C15_wide_hypotheses_inhabited.
        NaiveDate::years_since;
 
    PARTIAL theorem of this file (sub-domain stated at the theorem):
-     C15_parse_items_total_partial
-       parse::parse; parse::parse_and_remainder;
 
    OWNER's theorem states [= Val ...] for all typed arguments (not restated here):
      owner: C06_from_std
@@ -766,22 +965,6 @@ Print Assumptions C15_wide_hypotheses_inhabited.
        serde::ts_milliseconds::deserialize#2; serde::ts_seconds::deserialize#2;
 
    OWNER's theorem on a stated sub-domain (partial; elsewhere correspondence + judge):
-     owner-partial: C09_roundtrip_date
-       <NaiveDate as str::FromStr>::from_str;
-     owner-partial: C09_roundtrip_dt_fixed
-       <DateTime<FixedOffset> as str::FromStr>::from_str;
-     owner-partial: C09_roundtrip_dt_utc
-       <DateTime<Utc> as str::FromStr>::from_str;
-     owner-partial: C09_roundtrip_fixed_offset
-       <FixedOffset as FromStr>::from_str;
-     owner-partial: C09_roundtrip_ndt_debug
-       <NaiveDateTime as str::FromStr>::from_str;
-     owner-partial: C09_roundtrip_time
-       <NaiveTime as str::FromStr>::from_str;
-     owner-partial: C13_date_ymd_parse_from_str
-       NaiveDate::parse_from_str;
-     owner-partial: C13_time_hms_parse_from_str
-       NaiveTime::parse_from_str;
      owner-partial: C20_serde_roundtrip_date
        <NaiveDate as de::Deserialize<'de>>::deserialize;
      owner-partial: C20_serde_roundtrip_dt_fixed
@@ -807,31 +990,13 @@ Print Assumptions C15_wide_hypotheses_inhabited.
        serde::ts_microseconds::serialize#2; serde::ts_milliseconds::serialize#2; serde::ts_seconds::serialize#2;
 
    correspondence + judge ONLY:
-     none: C11_comment_total, C11_zone_scanner_total, C11_no_panic_on_grammar_partial are partial
-       DateTime<FixedOffset>::parse_from_rfc2822;
      none: C12_format_spec covers the documented family; C15_strftime_never_panics covers the item iterator; formatting of arbitrary items: correspondence + judge
        DelayedFormat<I>::write_to; <DelayedFormat<I> as Display>::fmt;
-     none: constant (returns Single(self)); no trapping step in the model
-       <FixedOffset as TimeZone>::offset_from_local_date; <FixedOffset as TimeZone>::offset_from_local_datetime;
-       <Utc as TimeZone>::offset_from_local_date; <Utc as TimeZone>::offset_from_local_datetime;
-     none: field getters
-       Parsed::year; Parsed::year_div_100; Parsed::year_mod_100; Parsed::isoyear; Parsed::isoyear_div_100;
-       Parsed::isoyear_mod_100; Parsed::quarter; Parsed::month; Parsed::week_from_sun; Parsed::week_from_mon;
-       Parsed::isoweek; Parsed::weekday; Parsed::ordinal; Parsed::day; Parsed::hour_div_12; Parsed::hour_mod_12;
-       Parsed::minute; Parsed::second; Parsed::nanosecond; Parsed::timestamp; Parsed::offset;
      none: outside C15 stream
        <ParseError as fmt::Display>::fmt; <OutOfRange as fmt::Display>::fmt; <OutOfRange as fmt::Debug>::fmt;
        <ParseMonthError as fmt::Display>::fmt; <ParseMonthError as fmt::Debug>::fmt;
        <IsoWeek as fmt::Debug>::fmt; <RoundingError as fmt::Display>::fmt;
        <OutOfRangeError as fmt::Display>::fmt; <ParseWeekdayError as fmt::Display>::fmt;
        <ParseWeekdayError as fmt::Debug>::fmt; <WeekdaySet as Debug>::fmt;
-     none: partial -- C15_strftime_never_panics (item iterator) and C15_parse_items_total_partial (item reader); their lazy composition and the resolution step: correspondence + judge
-       DateTime<FixedOffset>::parse_from_str; DateTime<FixedOffset>::parse_and_remainder;
-       NaiveDate::parse_and_remainder; NaiveDateTime::parse_from_str; NaiveDateTime::parse_and_remainder;
-       NaiveTime::parse_and_remainder;
-     none: partial -- goes through C15_to_naive_datetime_with_offset_total; the final zone step: correspondence + judge
-       Parsed::to_datetime; Parsed::to_datetime_with_timezone;
-     none: pattern match only; no trapping step in the model
-       MappedLocalTime<T>::single; MappedLocalTime<T>::earliest; MappedLocalTime<T>::latest;
 
 *)
